@@ -229,12 +229,17 @@ class Partitioner:
         root_name = part_ir.get_root_name(part_rank)
         for j, part in enumerate(partitioning):
             if part.data == "nway_shape":
-                # If j != 0, then the rank we are partitioning is already in
-                # the part_rank space
-                if j == 0:
-                    block.add(self.__nway_shape(rank, part_rank, part, i))
-                else:
-                    block.add(self.__nway_shape(part_rank, part_rank, part, i))
+                # If j != 0, the halo has already been added by the first
+                # split, but the coordinates of the level being re-split are
+                # still those of this tensor's rank (for a following rank:
+                # scaled by its stride), so the step is scaled at every level
+                block.add(
+                    self.__nway_shape(
+                        rank,
+                        part_rank,
+                        part,
+                        i,
+                        j == 0))
 
             elif part.data == "uniform_occupancy":
                 # The dynamic partitioning must be of the current top rank
@@ -352,7 +357,8 @@ class Partitioner:
             rank: str,
             part_rank: str,
             part: Tree,
-            depth: int) -> Statement:
+            depth: int,
+            halo: bool = True) -> Statement:
         """
         Partition into the given number of partitions in coordinate space
         """
@@ -369,7 +375,7 @@ class Partitioner:
         step = EBinOp(fdiv, OAdd(), EInt(1))
 
         # Build the splitUniform
-        return self.__split_uniform(rank, part_rank, step, depth)
+        return self.__split_uniform(rank, part_rank, step, depth, halo)
 
     def __split_equal(self, rank: str, part_rank: str,
                       size: Expression) -> Statement:
@@ -432,7 +438,8 @@ class Partitioner:
             rank: str,
             part_rank: str,
             step: Expression,
-            depth: int) -> Statement:
+            depth: int,
+            halo: bool = True) -> Statement:
         """
         Build a call to splitUniform
         """
@@ -460,9 +467,9 @@ class Partitioner:
 
         # Add the halos
         pre_halo, post_halo = self.__build_halo(rank, part_rank)
-        if pre_halo:
+        if pre_halo and halo:
             args.append(AParam("pre_halo", pre_halo))
-        if post_halo:
+        if post_halo and halo:
             args.append(AParam("post_halo", post_halo))
 
         # Build the call to splitUniform()
